@@ -181,8 +181,10 @@ PureOp(op, imm, a) ==
          IF z = <<>> THEN Fail("arith")
          ELSE LET q == Div(DWord(x, y), z) IN IF FitsWord(q) THEN Ok1(U(q)) ELSE Fail("arith")
     [] op = "concat" -> IF Len(x) + Len(y) > MaxBytes THEN Fail("range") ELSE Ok1(B(x \o y))
+    \* the immediates of substring / extract are single bytes: a text carrying a larger one does not assemble
     [] op = "substring" ->
-         IF imm[2] < imm[1] \/ imm[2] > Len(x) THEN Fail("range") ELSE Ok1(B(Slice(x, imm[1], imm[2])))
+         IF imm[1] > 255 \/ imm[2] > 255 THEN Fail("immediate")
+         ELSE IF imm[2] < imm[1] \/ imm[2] > Len(x) THEN Fail("range") ELSE Ok1(B(Slice(x, imm[1], imm[2])))
     [] op = "substring3" ->
          LET s == IntOf(a[2])
              e == IntOf(a[3])
@@ -190,7 +192,8 @@ PureOp(op, imm, a) ==
     [] op = "extract" ->
          LET s == imm[1]
              l == imm[2]
-         IN IF s > Len(x) THEN Fail("range")
+         IN IF s > 255 \/ l > 255 THEN Fail("immediate")
+            ELSE IF s > Len(x) THEN Fail("range")
             ELSE IF l = 0 THEN Ok1(B(Drop(x, s)))
             ELSE IF s + l > Len(x) THEN Fail("range") ELSE Ok1(B(Slice(x, s, s + l)))
     [] op = "extract3" ->
